@@ -60,6 +60,19 @@ def c07_runs(tier):
 
 
 PROPS = {
+    "C13": {
+        "engine": "exhaustive enumeration + rapidcheck",
+        "technique": "reference-model comparison: independent recognisers of the 488.2 token syntax against every scpiLex_*/scpiParser_* function on all short strings over per-recogniser class alphabets, plus rapidcheck-generated long tokens",
+        "level": "all strings up to length 6 (quick) / 7 (thorough) - shorter where the alphabet is large, see bounds - over one representative "
+                 "of every character class each of the 13 token recognisers distinguishes, for parseProgramData over a merged alphabet and "
+                 "for unit detection (well-formedness, length, data extent, parameter count, termination); each string in exact-size buffers "
+                 "at two offsets and in a buffer followed by tempting continuation bytes; tokens pre-filled with garbage; long generated tokens",
+        "level_note": "suffix program data is checked one-sidedly against the strict 488.2 syntax (the source documents a relaxed one); an incomplete block at the end of input swallows the rest (documented) and is accepted as such",
+        "design_ref": "DESIGN.md section 4, C13",
+        "runs": simple("c13"),
+        "rule": "evaluations = recogniser calls (x3 buffer variants); strings distinct by construction; non-trivial = the reference accepts a non-empty proper prefix or rejects a string of >= 2 characters (longest-match and rollback cases)",
+        "assumptions": COMMON_ASSUME + ["no mnemonic-length limit is asserted"],
+    },
     "C09": {
         "engine": "rapidcheck",
         "technique": "differential / metamorphic testing: message B after generated messages A1..Ak on one context against B on a fresh context, whole observable trace compared",
